@@ -577,6 +577,9 @@ const SOUP: &[&[u8]] = &[
     b"\xff",
     b"5",
     b"0",
+    b"+",
+    b"-",
+    b"+3",
     b"18446744073709551615",
     b"18446744073709551616",
     b"9223372036854775808",
@@ -659,6 +662,13 @@ pub fn edge_corpus() -> Vec<Vec<u8>> {
         v.push(format!("size: 3\nbinary: {}\nabc\nOK\n", n).into_bytes());
         v.push(format!("ACK [{}@0] {{}} x\n", n).into_bytes());
         v.push(format!("ACK [5@{}] {{play}} x\n", n).into_bytes());
+    }
+    // numbers that a lenient integer parser accepts and the protocol does not
+    for n in ["+5", "-5", "+0", " 5", "5 ", "0x10", "1e3", "５", "٣", "1_000", ""] {
+        v.push(format!("ACK [{}@0] {{}} x\n", n).into_bytes());
+        v.push(format!("ACK [5@{}] {{}} x\n", n).into_bytes());
+        v.push(format!("binary: {}\nabc\nOK\n", n).into_bytes());
+        v.push(format!("size: 3\nbinary: {}\nabc\nOK\n", n).into_bytes());
     }
     for s in [
         &b"foo: bar\n\xffgarbage\nOK\n"[..],
